@@ -73,6 +73,7 @@ COQ_TY = {"int": "Z", "bytes": "bytes", "bool": "bool", "boollist": "list bool",
           "optmatch0": "option unit",               # a match object of which only the truth value is used
           "list:int": "list Z",
           "optbytes": "option bytes",
+          "optlist:int": "option (list Z)",
           "iter:int": "list Z",        # an iterator over a list of ints: what is left of it
           "set:int": "list Z",         # a set of ints, only used for membership tests
           "buffer": "bytes",          # py7zr.io.Buffer: the bytes of its view
@@ -177,6 +178,8 @@ CLASSES3 = {
     "Folder": {"unpacksizes": "list:int", "coders": "list:Coder", "bindpairs": "list:Bond", "packed_indices": "list:int",
                "solid": "bool", "digestdefined": "bool", "crc": "optint"},
     "UnpackInfo": {"numfolders": "int", "folders": "list:Folder", "datastreamidx": "optint"},
+    "SubstreamsInfo": {"digests": "list:int", "digestsdefined": "boollist", "unpacksizes": "optlist:int",
+                       "num_unpackstreams_folders": "list:int"},
 }
 DICT_RECORDS = ("Coder",)                  # records that are Python dicts with string keys
 CTOR_RECORDS = {"Bond": ["incoder", "outcoder"]}   # classes built as C(a, b): __init__(self, a, b) stores its arguments
@@ -224,6 +227,18 @@ _rec3("UnpackInfo._retrieve_coders_info", "objreader", "UnpackInfo", "UnpackInfo
 _rec3("UnpackInfo._read", "objreader", "UnpackInfo", "UnpackInfo_read", ret="self", partial=["file method tell", "file method seek"])
 _rec3("UnpackInfo.retrieve", "retrieve", "UnpackInfo", "UnpackInfo_retrieve", ret="UnpackInfo")
 _rec3("UnpackInfo.write", "objwriter", "UnpackInfo", "UnpackInfo_write", args={"with_crcs": "bool"})
+# stage 3: SubstreamsInfo (and the Folder methods it calls)
+_rec3("Folder._find_out_bin_pair", "objfun", "Folder", "Folder_find_out_bin_pair", args={"index": "int"}, ret="int")
+_rec3("Folder.get_unpack_size", "objfun", "Folder", "Folder_get_unpack_size", ret="int")
+_rec3("SubstreamsInfo.__init__", "init", "SubstreamsInfo", "SubstreamsInfo_init", ret="SubstreamsInfo")
+_rec3("SubstreamsInfo._inherit_folder_digests", "objproc", "SubstreamsInfo", "SubstreamsInfo_inherit_folder_digests",
+      args={"numfolders": "int", "folders": "list:Folder"}, ret="self")
+_rec3("SubstreamsInfo._read", "objreader", "SubstreamsInfo", "SubstreamsInfo_read",
+      args={"numfolders": "int", "folders": "list:Folder"}, ret="self")
+_rec3("SubstreamsInfo.retrieve", "retrieve", "SubstreamsInfo", "SubstreamsInfo_retrieve",
+      args={"numfolders": "int", "folders": "list:Folder"}, ret="SubstreamsInfo")
+_rec3("SubstreamsInfo.default", "classinit", "SubstreamsInfo", "SubstreamsInfo_default", args={"folders": "list:Folder"}, ret="self")
+_rec3("SubstreamsInfo.write", "objwriter", "SubstreamsInfo", "SubstreamsInfo_write")
 
 for _k, _v in WAVE2.items():
     if _v["out"] == "ArchiveinfoRecords":
@@ -258,7 +273,7 @@ STAT_FUNCTIONS = {"S_ISLNK": ("py_S_ISLNK", "bool"), "S_ISSOCK": ("py_S_ISSOCK",
 
 _MODCACHE = {}
 DEFAULT_VALUE = {"int": "0", "bool": "false", "list:int": "[]", "boollist": "[]", "bytes": "[]", "optint": "None",
-                 "optbytes": "None", "list:Coder": "[]", "list:Bond": "[]", "list:Folder": "[]"}
+                 "optbytes": "None", "optlist:int": "None", "list:Coder": "[]", "list:Bond": "[]", "list:Folder": "[]"}
 
 
 def init_fields(module, cls):
@@ -306,7 +321,7 @@ def init_text(module, cls, spec):
         v = ini[f]
         if isinstance(v, ast.List) and not v.elts and (t.startswith("list:") or t == "boollist"):
             vals.append("[]")
-        elif isinstance(v, ast.Constant) and v.value is None and t in ("optint", "optbytes"):
+        elif isinstance(v, ast.Constant) and v.value is None and t in ("optint", "optbytes", "optlist:int"):
             vals.append("None")
         elif isinstance(v, ast.Constant) and isinstance(v.value, bool) and t == "bool":
             vals.append("true" if v.value else "false")
@@ -321,14 +336,18 @@ def init_text(module, cls, spec):
 
 def retrieve_text(module, cls, spec):
     node = find_function(module, cls + ".retrieve")
-    ok = node is not None and [a.arg for a in node.args.args] == ["cls", "file"] \
+    extra = list(spec.get("args", {}))
+    ok = node is not None and [a.arg for a in node.args.args] == ["cls", "file"] + extra \
         and len(node.decorator_list) == 1 and ast.unparse(node.decorator_list[0]) == "classmethod"
     body = [st for st in node.body if not (isinstance(st, ast.Expr) and isinstance(st.value, ast.Constant))] if ok else []
-    form1 = ok and len(body) == 1 and isinstance(body[0], ast.Return) and ast.unparse(body[0].value) == "cls()._read(file)"
-    form2 = ok and [ast.unparse(st) for st in body] == ["obj = cls()", "obj._read(file)", "return obj"]
+    call = "_read(%s)" % ", ".join(["file"] + extra)
+    form1 = ok and len(body) == 1 and isinstance(body[0], ast.Return) and ast.unparse(body[0].value) == "cls()." + call
+    form2 = ok and [ast.unparse(st) for st in body] == ["obj = cls()", "obj." + call, "return obj"]
     if not (form1 or form2):
         raise Refused("%s.retrieve is neither `return cls()._read(file)` nor `obj = cls(); obj._read(file); return obj`" % cls)
-    return "Definition %s (inp : bytes) : res (%s * bytes) :=\n  %s_read %s_init inp." % (spec["coqname"], cls, cls, cls)
+    sig = " ".join("(%s : %s)" % (a, coq_ty(t)) for a, t in spec.get("args", {}).items())
+    return "Definition %s (inp : bytes) %s: res (%s * bytes) :=\n  %s_read %s_init inp%s." % (
+        spec["coqname"], sig + " " if sig else "", cls, cls, cls, "".join(" " + a for a in extra))
 
 
 class FnTr:
@@ -343,7 +362,7 @@ class FnTr:
         self.decl = {}          # declared types of lowered local variables (dict keys, fields of a loop object)
         self.partial = []       # branches replaced by Err EUnsupported (allowed by spec["partial"])
         self.io = {"reader": "inp", "objreader": "inp", "writer": "out", "objwriter": "out"}.get(kind)
-        self.fields = CLASSES3.get(self.spec.get("cls"), {}) if kind in ("objreader", "objwriter") else {}
+        self.fields = CLASSES3.get(self.spec.get("cls"), {}) if kind in ("objreader", "objwriter", "objfun", "objproc", "classinit") else {}
 
     def fresh(self):
         self.tmp += 1
@@ -382,7 +401,7 @@ class FnTr:
                 return [], "None", "nonetype"
             self.refuse(e, "constant")
         if isinstance(e, ast.Name):
-            if e.id == "self" and self.fields and self.kind == "objreader":
+            if e.id == "self" and self.fields and self.kind in ("objreader", "objproc", "classinit"):
                 return [], self.self_record(), "self"
             if e.id not in self.ty:
                 if self.module is not None and e.id in self.local_names():
@@ -618,20 +637,31 @@ class FnTr:
             return "(negb (%s =? 0))" % v
         if t in ("optmatch2", "optmatch0"):
             return "(py_is_some %s)" % v
+        if t == "optlist:int":
+            return "(match %s with Some l => py_nonempty l | None => false end)" % v
         self.refuse(e, "truth value of " + t)
 
     def test(self, e):
         """e in a boolean context (if / while / operand of not, and, or there): (pre-lines, Coq bool)"""
         if isinstance(e, ast.BoolOp):
             vals, pre = [], []
+            op = "&&" if isinstance(e.op, ast.And) else "||"
             for x in e.values:
                 p, v = self.test(x)
                 if p and vals:
-                    self.refuse(e, "effect in non-first operand of and/or")
+                    if self.spec.get("out") != "ArchiveinfoRecords":
+                        self.refuse(e, "effect in non-first operand of and/or")
+                    # short circuit: the operand (and what it may raise) is evaluated only when the result is still open
+                    sofar = "(" + (" %s " % op).join(vals) + ")" if len(vals) > 1 else vals[0]
+                    t1 = self.fresh()
+                    inner = " ".join(p) + " Ok %s" % v
+                    pre.append("do %s <- (if %s then %s else %s);" % (
+                        (t1, sofar, inner, "Ok false") if op == "&&" else (t1, sofar, "Ok true", inner)))
+                    vals = [t1]
+                    continue
                 pre += p
                 vals.append(v)
-            op = "&&" if isinstance(e.op, ast.And) else "||"
-            return pre, "(" + (" %s " % op).join(vals) + ")"
+            return pre, ("(" + (" %s " % op).join(vals) + ")" if len(vals) > 1 else vals[0])
         if isinstance(e, ast.UnaryOp) and isinstance(e.op, ast.Not):
             p, v = self.test(e.operand)
             return p, "(negb %s)" % v
@@ -642,10 +672,12 @@ class FnTr:
         """a value of type t where `want` is declared"""
         if t == want:
             return v, t
-        if want in ("optint", "optbytes") and t == "nonetype":
+        if want in ("optint", "optbytes", "optlist:int") and t == "nonetype":
             return "None", want
-        if (want, t) in (("optint", "int"), ("optbytes", "bytes")):
+        if (want, t) in (("optint", "int"), ("optbytes", "bytes"), ("optlist:int", "list:int")):
             return "(Some %s)" % v, want
+        if want == "optlist:int" and t == "nonetype":
+            return "None", want
         if want == "boollist" and t == "list:bool":
             return v, want
         if t.startswith("list:") and want.startswith("list:") and v == "[]":
@@ -654,7 +686,7 @@ class FnTr:
 
     def unwrap(self, p, v, t):
         """an Optional[int] used as an int: TypeError when it is None"""
-        if t in ("optint", "optbytes"):
+        if t in ("optint", "optbytes", "optlist:int"):
             t1 = self.fresh()
             return p + ["do %s <- py_unwrap %s;" % (t1, v)], t1, t[3:]
         return p, v, t
@@ -768,6 +800,9 @@ class FnTr:
             return pre, "(%s ++ %s)" % (l, r), tl
         if isinstance(op, ast.Mult) and tl == "list:bool" and tr == "int":
             return pre, "(repeat %s (Z.to_nat %s))" % (l.strip("[]"), r), "boollist"
+        if isinstance(op, ast.Mult) and tl == "list:int" and tr == "int" and self.module is not None \
+                and isinstance(e.left, ast.List) and len(e.left.elts) == 1:
+            return pre, "(repeat %s (Z.to_nat %s))" % (l.strip("[]"), r), "list:int"
         self.refuse(e, "binop %s on %s,%s" % (type(op).__name__, tl, tr))
 
     def compare(self, e):
@@ -779,7 +814,7 @@ class FnTr:
                 and tl in ("int", "bool", "bytes", "list:int", "boollist"):
             # a record field / value of a non-optional type is never None
             return [], ("false" if isinstance(e.ops[0], ast.Is) else "true"), "bool"
-        if isinstance(e.ops[0], (ast.Is, ast.IsNot)) and tr == "nonetype" and tl in ("optint", "optbytes") and self.module is not None:
+        if isinstance(e.ops[0], (ast.Is, ast.IsNot)) and tr == "nonetype" and tl in ("optint", "optbytes", "optlist:int") and self.module is not None:
             return pl, ("(negb (py_is_some %s))" if isinstance(e.ops[0], ast.Is) else "(py_is_some %s)") % l, "bool"
         if isinstance(e.ops[0], (ast.In, ast.NotIn)) and tl == "int" and tr in ("set:int", "list:int") and self.module is not None:
             v = "(py_in_ints %s %s)" % (l, r)
@@ -858,9 +893,14 @@ class FnTr:
         if tb == "list:str":
             t = self.fresh()
             return pb + pi + ["do %s <- py_index %s %s;" % (t, b, i)], t, "str"
+        if tb == "optlist:int" and self.module is not None:
+            pb, b, tb = self.unwrap(pb, b, tb)
         if tb == "list:int" and self.module is not None:
             t = self.fresh()
             return pb + pi + ["do %s <- py_index %s %s;" % (t, b, i)], t, "int"
+        if tb.startswith("list:") and tb[5:] in CLASSES3 and self.module is not None:
+            t = self.fresh()
+            return pb + pi + ["do %s <- py_index %s %s;" % (t, b, i)], t, tb[5:]
         self.refuse(e, "subscript of " + tb)
 
     def call(self, e):
@@ -1077,6 +1117,22 @@ class FnTr:
                 self.refuse(e, "reduce types")
             return p + pi, "(%s %s %s)" % ("py_all" if args[0].id == "and_" else "py_any", i, v), "bool"
         if d == "functools.reduce" and self.is_module("functools") and len(args) == 3 and isinstance(args[0], ast.Lambda) \
+                and ast.unparse(args[0]) not in ("lambda x, y: x or y", "lambda x, y: x and y"):
+            lam = args[0]
+            ps = [a.arg for a in lam.args.args]
+            p, v, t = self.expr(args[1])
+            pi, i, ti = self.expr(args[2])
+            elt = "bool" if t == "boollist" else t[5:] if t.startswith("list:") else None
+            if len(ps) != 2 or lam.args.defaults or elt is None or any(x in self.ty for x in ps):
+                self.refuse(e, "reduce lambda")
+            saved = dict(self.ty)
+            self.ty[ps[0]], self.ty[ps[1]] = ti, elt
+            pb, vb = self.test(lam.body) if ti == "bool" else self.expr(lam.body)[:2]
+            self.ty = saved
+            if pb:
+                self.refuse(e, "effect in a reduce lambda")
+            return p + pi, "(fold_left (fun %s %s => %s) %s %s)" % (ps[0], ps[1], vb, v, i), ti
+        if d == "functools.reduce" and self.is_module("functools") and len(args) == 3 and isinstance(args[0], ast.Lambda) \
                 and ast.unparse(args[0]) in ("lambda x, y: x or y", "lambda x, y: x and y"):
             p, v, t = self.expr(args[1])
             pi, i, ti = self.expr(args[2])
@@ -1282,6 +1338,21 @@ class FnTr:
             p, v, t = self.expr(f.value)
             if t == "boollist":
                 return p, "(py_count_true %s)" % v, "int"
+        if not (isinstance(f.value, ast.Name) and (f.value.id == "self" or f.value.id in CLASSES3)) and f.attr not in ("write", "append", "pop", "count"):
+            sp0 = [sp for k, sp in WAVE2.items() if sp.get("kind") == "objfun" and k.endswith("." + f.attr) and sp["file"] == self.spec.get("file")]
+            if len(sp0) == 1 and not e.keywords and len(args) == len(sp0[0]["args"]):
+                sp = sp0[0]
+                p, v, t = self.expr(f.value)
+                if t == sp["cls"]:
+                    pre, vs = list(p), [v]
+                    for a, (an, at) in zip(args, sp["args"].items()):
+                        pa, va, ta = self.expr(a)
+                        if ta != at:
+                            self.refuse(e, "argument type of %s.%s" % (sp["cls"], f.attr))
+                        pre += pa
+                        vs.append(va)
+                    t1 = self.fresh()
+                    return pre + ["do %s <- %s %s;" % (t1, sp["coqname"], " ".join(vs))], t1, sp["ret"]
         if isinstance(f.value, ast.Name) and self.ty.get(f.value.id) in CLASSES3 and f.attr == "write" and self.io == "out":
             cls = self.ty[f.value.id]
             sp = self.method_spec(cls, "write")
@@ -1309,6 +1380,23 @@ class FnTr:
                 vs.append(v)
             t1 = self.fresh()
             return pre + ["do %s <- %s %s;" % (t1, sp["coqname"], " ".join(vs))], t1, sp["ret"]
+        if sp["kind"] in ("objfun", "objproc") and self.fields and not e.keywords and len(args) == len(sp["args"]):
+            pre, vs = [], [self.self_record()]
+            for a, (an, at) in zip(args, sp["args"].items()):
+                p, v, t = self.expr(a)
+                if t != at:
+                    self.refuse(e, "argument type of self.%s: %s" % (f.attr, t))
+                pre += p
+                vs.append(v)
+            t1 = self.fresh()
+            cls = self.spec["cls"]
+            if sp["kind"] == "objfun":
+                return pre + ["do %s <- %s %s;" % (t1, sp["coqname"], " ".join(vs))], t1, sp["ret"]
+            if self.kind in ("objfun",):
+                self.refuse(e, "a method that changes the object called from one that may not")
+            lines = pre + ["do %s <- %s %s;" % (t1, sp["coqname"], " ".join(vs))]
+            lines += ["let self_%s := %s_%s %s in" % (fld, cls, fld, t1) for fld in self.fields]
+            return lines, "tt", "none"
         if sp["kind"] == "objreader" and self.kind == "objreader" and len(args) == 1 and self.is_file(args[0]) and not e.keywords:
             t1 = self.fresh()
             cls = self.spec["cls"]
@@ -1379,6 +1467,12 @@ class FnTr:
             if isinstance(st, ast.Attribute) and isinstance(st.ctx, ast.Store) and isinstance(st.value, ast.Name) \
                     and st.value.id == "self" and self.fields:
                 add("self_" + st.attr)
+            if isinstance(st, ast.Call) and isinstance(st.func, ast.Attribute) and isinstance(st.func.value, ast.Name) \
+                    and st.func.value.id == "self" and self.fields and self.module is not None:
+                sp = WAVE2.get("%s.%s" % (self.spec.get("cls"), st.func.attr))
+                if sp is not None and sp["kind"] in ("objproc", "objreader"):
+                    for fld in self.fields:
+                        add("self_" + fld)
             if isinstance(st, ast.Call) and isinstance(st.func, ast.Name) and st.func.id == "next" and len(st.args) == 1 \
                     and isinstance(st.args[0], ast.Name) and self.module is not None:
                 add(st.args[0].id)
@@ -1402,6 +1496,8 @@ class FnTr:
             return ["RETURN " + val]
         if self.kind == "objreader" and self.retty == "self" and val == "tt":
             return ["Ok (%s, inp)" % self.self_record()]
+        if self.kind in ("objproc", "classinit"):
+            return ["Ok %s" % self.self_record()]
         if self.kind in ("reader", "objreader"):
             return ["Ok (%s, inp)" % val]
         if self.kind == "writer":
@@ -1445,6 +1541,8 @@ class FnTr:
                 ast.copy_location(n, st)
             return self.block([fake], lambda: self.refuse(st, "fall through a conditional return"))
         if isinstance(st, ast.Return):
+            if st.value is None and self.kind == "objwriter" and not self.loops:
+                return ["Ok (%s, out)" % self.self_record()] if self.spec.get("mutates") else ["Ok out"]
             if st.value is None:
                 return self.ret("tt")
             p, v, t = self.expr(st.value)
@@ -1492,6 +1590,8 @@ class FnTr:
             p, v, t = self.expr(st.value)
             if isinstance(tg, ast.Name) and (tg.id in self.decl or (tg.id.startswith("self_") and tg.id[5:] in self.fields)):
                 ft = self.decl[tg.id] if tg.id in self.decl else self.fields[tg.id[5:]]
+                if ft == "optlist:int" and isinstance(st.value, ast.List) and not st.value.elts:
+                    v, t = "(Some [])", ft
                 v, t = self.coerce(st, v, t, ft)
                 self.ty[tg.id] = ft
                 if isinstance(st.value, ast.List) and not st.value.elts:
@@ -1562,6 +1662,11 @@ class FnTr:
                     p, v, t = self.expr(c.args[0])
                     if self.module is not None and self.ty.get(n) == "boollist" and t == "bool":
                         return p + ["let %s := %s ++ [%s] in" % (n, n, v)] + cont()
+                    if self.module is not None and self.ty.get(n) in ("list:int", "optlist:int") and t == "optint":
+                        p, v, t = self.unwrap(p, v, t)      # a None here fails later in the Python (arithmetic / struct.pack)
+                    if self.module is not None and self.ty.get(n) == "optlist:int" and t == "int":
+                        t1 = self.fresh()
+                        return p + ["do %s <- py_unwrap %s;" % (t1, n), "let %s := Some (%s ++ [%s]) in" % (n, t1, v)] + cont()
                     if self.module is not None and self.ty.get(n) != "list:" + t:
                         self.refuse(st, "append of %s to %s" % (t, self.ty.get(n)))
                     return p + ["let %s := %s ++ [%s] in" % (n, n, v)] + cont()
@@ -1937,6 +2042,12 @@ class FnTr:
                 p1, lo, _ = self.expr(it.args[0])
                 p2, hi, _ = self.expr(it.args[1])
                 pre, xs = p1 + p2, "(py_range %s %s)" % (lo, hi)
+            elif len(it.args) == 3 and self.module is not None and self.const_int(it.args[2]) == -1:
+                p1, lo, t1 = self.expr(it.args[0])
+                p2, hi, t2 = self.expr(it.args[1])
+                if t1 != "int" or t2 != "int":
+                    self.refuse(st, "range argument types")
+                pre, xs = p1 + p2, "(py_range_down %s %s)" % (lo, hi)      # range(lo, hi, -1): lo, lo-1, ..., hi+1
             else:
                 self.refuse(st, "range arity")
             elty = "int"
@@ -1976,7 +2087,7 @@ class FnTr:
         else:
             self.refuse(st, "loop target")
         has_ret = any(isinstance(n, ast.Return) for n in ast.walk(ast.Module(body=st.body, type_ignores=[])))
-        if has_ret and (self.module is None or self.kind != "pure"):
+        if has_ret and (self.module is None or self.kind not in ("pure", "objfun")):
             self.refuse(st, "return inside loop")
         state = [v for v in self.assigned(st.body) if v in self.ty or v in ("inp", "out")]
         if has_ret:
@@ -2031,11 +2142,20 @@ class FnTr:
         if self.kind in ("reader", "writer"):
             self.filevar = params[0]
             params = params[1:]
+        if self.kind in ("objfun", "objproc"):
+            if not params or params[0] != "self":
+                self.refuse(node, "method signature")
+            params = params[1:]
+        if self.kind == "classinit":
+            if not params or params[0] != "cls" or [ast.unparse(d) for d in node.decorator_list] != ["classmethod"]:
+                self.refuse(node, "classmethod signature")
+            params = params[1:]
         if self.kind in ("objreader", "objwriter"):
             if len(params) < 2 or params[0] != "self":
                 self.refuse(node, "method signature")
             self.filevar = params[1]
             params = params[2:]
+        if self.kind in ("objreader", "objwriter", "objfun", "objproc"):
             for n in self.local_names():
                 if n.startswith("self_") or n in ("inp", "out"):
                     self.refuse(node, "a variable named " + n)
@@ -2053,6 +2173,8 @@ class FnTr:
             for n in ast.walk(node):
                 if isinstance(n, ast.Name) and n.id == "self" and not isinstance(getattr(n, "ctx", None), ast.Load):
                     self.refuse(node, "self is rebound")
+        if self.kind == "classinit" and any(n.startswith("self_") for n in self.local_names()):
+            self.refuse(node, "a variable named self_*")
         if self.kind in ("method", "objmethod"):
             if not params or params[0] != "self":
                 self.refuse(node, "method without self")
@@ -2072,7 +2194,17 @@ class FnTr:
             if "fuel" in self.ty:
                 self.refuse(node, "a variable named fuel")
             sig = "(fuel : nat) " + sig
-        if self.kind in ("objreader", "objwriter"):
+        if self.kind in ("objfun", "objproc", "classinit"):
+            cls = self.spec["cls"]
+            for f, t in self.fields.items():
+                self.ty["self_" + f] = t
+            src = "self" if self.kind != "classinit" else "%s_init" % cls
+            unpack = "\n".join("  let self_%s := %s_%s %s in" % (f, cls, f, src) for f in self.fields)
+            rt = cls if self.kind != "objfun" else coq_ty(self.retty)
+            head = "Definition %s %s%s : res %s :=\n%s" % (
+                self.spec["coqname"], "(self : %s) " % cls if self.kind != "classinit" else "", sig,
+                "(%s)" % rt if " " in rt and not rt.startswith("(") else rt, unpack)
+        elif self.kind in ("objreader", "objwriter"):
             cls = self.spec["cls"]
             for f, t in self.fields.items():
                 self.ty["self_" + f] = t
@@ -2094,8 +2226,22 @@ class FnTr:
                 rt = "(%s * (%s))" % (rt, " * ".join(coq_ty(t) for _, t in self.spec["state"].values()))
             head = "Definition %s %s : res %s :=" % (self.spec.get("coqname", self.name.split(".")[-1]), sig,
                                                      "(%s)" % rt if " " in rt and not rt.startswith("(") else rt)
-        stmts = self.lower(node.body) if self.module is not None and self.kind in ("objreader", "objwriter", "method") \
-            and self.spec.get("out") == "ArchiveinfoRecords" else node.body
+        stmts = self.lower(node.body) if self.module is not None and self.spec.get("out") == "ArchiveinfoRecords" \
+            and self.kind in ("objreader", "objwriter", "method", "objfun", "objproc", "classinit") else node.body
+        if self.kind == "classinit":
+            # obj = cls() ; ... obj.x ... ; return obj   ==   the same method body on a fresh object called self
+            stmts = [x for x in stmts if not (isinstance(x, ast.Expr) and isinstance(x.value, ast.Constant))]
+            if not (stmts and ast.unparse(stmts[0]) in ("obj = cls()",)) or not (ast.unparse(stmts[-1]) == "return obj"):
+                self.refuse(node, "classmethod that is not `obj = cls(); ...; return obj`")
+            import copy
+
+            class O(ast.NodeTransformer):
+                def visit_Name(t, n):
+                    return ast.copy_location(ast.Name(id="self", ctx=n.ctx), n) if n.id == "obj" else n
+            mid = [O().visit(copy.deepcopy(x)) for x in stmts[1:-1]]
+            if any(isinstance(n, ast.Name) and n.id in ("cls", "obj") for x in mid for n in ast.walk(x)):
+                self.refuse(node, "use of cls / obj")
+            stmts = self.lower(mid) + [ast.copy_location(ast.Return(value=ast.Name(id="self", ctx=ast.Load())), node)]
         body = self.block(stmts, lambda: self.ret("tt"))
         for x in body:
             if x.strip() in ("BREAK", "CONTINUE") or x.strip().startswith("RETURN "):
@@ -2154,6 +2300,11 @@ def placeholder(name, spec):
         ret = cls if spec["ret"] in ("self", cls) else coq_ty(spec["ret"])
         first = "(self : %s) " % cls if spec["kind"] == "objreader" else ""
         return "Definition %s %s(inp : bytes) %s : res (%s * bytes) :=\n  Err EOther." % (spec["coqname"], first, sig, ret)
+    if spec["kind"] in ("objfun", "objproc", "classinit"):
+        cls = spec["cls"]
+        rt = cls if spec["kind"] != "objfun" else coq_ty(spec["ret"])
+        return "Definition %s %s%s : res %s :=\n  Err EOther." % (
+            spec["coqname"], "(self : %s) " % cls if spec["kind"] != "classinit" else "", sig, "(%s)" % rt if " " in rt else rt)
     if spec["kind"] == "objwriter":
         return "Definition %s (self : %s) %s : res %s :=\n  Err EOther." % (
             spec["coqname"], spec["cls"], sig, "(%s * bytes)" % spec["cls"] if spec.get("mutates") else "bytes")
